@@ -212,7 +212,12 @@ func (env *SpecEnv) applySpecFuncIn(inner *SpecEnv, sf *SpecFunc, args []Expr) V
 	var argv []Term
 	for i, a := range args {
 		pt := inner.resolveType(sf.Params[i].Type)
-		argv = append(argv, env.evalTerm(a, pt))
+		t := env.evalTerm(a, pt)
+		if isInterface(pt) && !isInterface(t.T) && ex.dynRepresentable(t.T) {
+			// implicit conversion of a concrete value to the interface parameter
+			t = Term{S: sx(ex.vc.tc.dynCtor(t.T), t.S), T: pt}
+		}
+		argv = append(argv, t)
 	}
 	return ex.specFuncApply(inner, sf, argv)
 }
